@@ -146,16 +146,26 @@ def run_parse_rules(res, ast):
                             continue
                         okuse = False
                         continue
-                    if pn["t"] == "MethodCall" and pn["method"] == "push" and path_name(pn["receiver"]) == "positions":
+                    if pn["t"] == "MethodCall" and pn["method"] == "push" and path_name(pn["receiver"]) and len(pn["args"]) == 1:
                         continue
                     okuse = False
                 res.check(okuse and len(iuses) == 2, "ERR-POS", f"{IR}|parse|index-uses", where(IR, main, "parse"),
                           f"the character index `{ivar}` must be used exactly for positions.push({ivar}) and the LoopNotOpened position; found {len(iuses)} uses")
+                # names of the two stacks: `positions` is the vector the character index is pushed on, `stack` the
+                # vector of blocks (initialised with one block holding a HashMap)
+                posn, stkn = "positions", "stack"
+                for mc in walk_t(main["body"], "MethodCall"):
+                    if mc["method"] == "push" and len(mc["args"]) == 1 and path_name(strip_paren(mc["args"][0])) == ivar and path_name(mc["receiver"]):
+                        posn = path_name(mc["receiver"])
+                for l_ in body["stmts"]:
+                    if l_["t"] == "Local" and l_["pat"]["t"] == "PIdent" and l_["init"] is not None and \
+                            ast.src1(IR, l_["init"], 200).replace(" ", "").startswith("vec![(") and "HashMap::new()" in ast.src1(IR, l_["init"], 200):
+                        stkn = l_["pat"]["name"]
                 # stack discipline
                 def calls_on(node, vec, meths):
                     return [x for x in walk_t(node, "MethodCall") if path_name(x["receiver"]) == vec and x["method"] in meths]
                 mut = ("push", "pop", "clear", "truncate", "remove", "insert", "drain", "retain", "swap_remove", "extend", "append", "split_off")
-                for vec in ("stack", "positions"):
+                for vec in (stkn, posn):
                     allm = calls_on(body, vec, mut)
                     ino = calls_on(arms["["]["body"], vec, mut) if "[" in arms else []
                     inc = calls_on(arms["]"]["body"], vec, mut) if "]" in arms else []
@@ -164,7 +174,7 @@ def run_parse_rules(res, ast):
                     names_c = [x["method"] for x in inc]
                     other = [x for x in allm if x not in ino and x not in inc and x not in tail]
                     good = names_o == ["push"] and names_c == ["pop"] and not other and \
-                        ([x["method"] for x in tail] in ([], ["pop"]) if vec == "stack" else not tail)
+                        ([x["method"] for x in tail] in ([], ["pop"]) if vec == stkn else not tail)
                     res.check(good, "STACK-PAIR", f"{IR}|parse|{vec}", w0,
                               f"`{vec}`: pushed {names_o} at `[`, {names_c} at `]`, {len(other)} other mutation(s) in the scan; "
                               "expected exactly one push at `[` and one pop at `]`")
@@ -181,10 +191,10 @@ def run_parse_rules(res, ast):
                         c = ast.src1(IR, first["cond"]).replace(" ", "")
                         rets = [r for r in walk_t(first["then"], "Return")]
                         txt = ast.src1(IR, first["then"], 400).replace(" ", "")
-                        okf = c == "positions.is_empty()" and len(rets) == 1 and "ErrorKind::LoopNotOpened" in txt and f"position:{ivar}," in txt
+                        okf = c == f"{posn}.is_empty()" and len(rets) == 1 and "ErrorKind::LoopNotOpened" in txt and f"position:{ivar}," in txt
                     res.check(okf, "ERR-POS", f"{IR}|parse|not-opened", where(IR, arms["]"], "parse"),
                               f"`]` must first test positions.is_empty() and return LoopNotOpened at position `{ivar}`")
-                    pops = [x for x in walk_t(arms["]"]["body"], "MethodCall") if x["method"] == "pop" and path_name(x["receiver"]) in ("positions", "stack")]
+                    pops = [x for x in walk_t(arms["]"]["body"], "MethodCall") if x["method"] == "pop" and path_name(x["receiver"]) in (posn, stkn)]
                     res.check(first is not None and all(x["sp"][0] > first["sp"][2] for x in pops) and len(pops) == 2, "STACK-PAIR",
                               f"{IR}|parse|close-after-test", where(IR, arms["]"], "parse"), "both pops must follow the emptiness test")
             # tail: LoopNotClosed
@@ -193,14 +203,18 @@ def run_parse_rules(res, ast):
             for i in tail_ifs:
                 c = ast.src1(IR, i["cond"]).replace(" ", "")
                 txt = ast.src1(IR, i["then"], 400).replace(" ", "")
-                if c in ("stack.len()!=1", "!positions.is_empty()", "stack.len()>1") and "ErrorKind::LoopNotClosed" in txt:
-                    okt = any(x in txt for x in ("position:*positions.last().unwrap()", "position:positions[positions.len()-1]",
-                                                 "position:positions.pop().unwrap()"))
+                posn_ = posn if main is not None and "posn" in dir() else "positions"
+                stkn_ = stkn if main is not None and "stkn" in dir() else "stack"
+                if c in (f"{stkn_}.len()!=1", f"!{posn_}.is_empty()", f"{stkn_}.len()>1") and "ErrorKind::LoopNotClosed" in txt:
+                    okt = any(x in txt for x in (f"position:*{posn_}.last().unwrap()", f"position:{posn_}[{posn_}.len()-1]",
+                                                 f"position:{posn_}.pop().unwrap()"))
             res.check(okt, "ERR-POS", f"{IR}|parse|not-closed", w0,
                       "after the scan: `if stack.len() != 1 { return LoopNotClosed at *positions.last().unwrap() }` (innermost unclosed `[`)")
             res.check(okt, "STACK-PAIR", f"{IR}|parse|acceptance", w0, "acceptance must be decided by the stack depth after the scan")
             inits = {l["pat"].get("name"): ast.src1(IR, l["init"], 200).replace(" ", "") for l in body["stmts"] if l["t"] == "Local" and l["init"] is not None}
-            res.check(inits.get("positions") in ("vec![]", "Vec::new()") and inits.get("stack", "").startswith("vec![(") and inits["stack"].count("HashMap::new()") == 1,
+            posn_ = posn if "posn" in dir() else "positions"
+            stkn_ = stkn if "stkn" in dir() else "stack"
+            res.check(inits.get(posn_) in ("vec![]", "Vec::new()") and inits.get(stkn_, "").startswith("vec![(") and inits[stkn_].count("HashMap::new()") == 1,
                       "STACK-PAIR", f"{IR}|parse|init", w0, "stack must start with exactly one block and positions empty")
         # non-recursion (explicit stacks)
         rec = [c for c in walk_t(body, "Call") if path_name(c["func"]) and path_name(c["func"]).split("::")[-1] == "parse"]
@@ -366,47 +380,44 @@ def run_cmd_table(res, ast):
             except (Unanalysable, Reached) as u:
                 res.bad("CMD-TABLE", key + "|fail", w, f"cannot be analysed: {u}")
     # brackets: polarity of the zero test
-    for ch, cond_want in (("[", "cxt.memory.read(0)==C::ZERO"), ("]", "cxt.memory.read(0)!=C::ZERO")):
+    import pm
+    for ch, op in (("[", "=="), ("]", "!=")):
         key = f"{INPLACE}|execute_in|cmd|{ch}"
         if ch not in arms:
             res.bad("CMD-TABLE", key, INPLACE, f"no arm for `{ch}`")
             continue
-        ifs = [i for i in walk_t(arms[ch]["body"], "If") if "read(0)" in ast.src1(INPLACE, i["cond"]).replace(" ", "")]
-        conds = [ast.src1(INPLACE, i["cond"]).replace(" ", "") for i in ifs]
-        okc = conds == [cond_want]
+        ifs = [i for i in walk_t(arms[ch]["body"], "If") if pm.find_expr(i["cond"], "__v_c.memory.read(0)")]
+        okc = len(ifs) == 1 and pm.match_expr(ifs[0]["cond"], "__v_c.memory.read(0) " + op + " C::ZERO") is not None
         extra = ""
         if okc and ch == "[":
-            # zero -> skip forward (else branch pushes the loop start)
             e = ifs[0]["else"]
             okc = e is not None and any(m["method"] == "push" for m in walk_t(e, "MethodCall")) and \
                 not any(m["method"] == "push" for m in walk_t(ifs[0]["then"], "MethodCall"))
             extra = " (zero must skip the loop, non-zero must enter it)"
         if okc and ch == "]":
-            okc = any(path_name(a["left"]) == "pc" for a in walk_t(ifs[0]["then"], "Assign"))
+            okc = bool([a_ for a_ in walk_t(ifs[0]["then"], "Assign") if path_name(a_["left"])])
             extra = " (non-zero must jump back)"
         res.check(okc, "CMD-TABLE", key, where(INPLACE, arms[ch], "execute_in"),
-                  f"`{ch}` must test `{cond_want}`{extra}; found {conds}")
+                  f"`{ch}` must test `cxt.memory.read(0) {op} C::ZERO`{extra}; found {[ast.src1(INPLACE, i['cond']) for i in ifs]}")
     # sibling: the parser
     try:
         pf = ast.fn(IR, "parse")
         pm = [m for m in walk_t(pf["node"]["body"], "Match") if any(a["pat"]["t"] == "PLit" and a["pat"]["lit"]["kind"] == "char" for a in m["arms"])]
         parms = {a["pat"]["lit"]["value"]: a for a in pm[0]["arms"] if a["pat"]["t"] == "PLit"}
-        table = {">": "*shift+=1;", "<": "*shift-=1;"}
-        for ch, exp in table.items():
-            txt = ast.src1(IR, parms[ch]["body"]).replace(" ", "")
-            res.check(txt == "{" + exp + "}", "CMD-TABLE", f"{IR}|parse|cmd|{ch}", where(IR, parms[ch], "parse"),
-                      f"parser: `{ch}` must be `{exp}`; found `{txt}`")
-        for ch, const in (("+", "C::ONE"), ("-", "C::NEG_ONE")):
-            txt = ast.src1(IR, parms[ch]["body"], 300).replace(" ", "")
-            ok = "buff.entry(*shift).or_insert(C::ZERO)" in txt and f"val.wrapping_add({const})" in txt
+        import pm
+        for ch, op in ((">", "+="), ("<", "-=")):
+            ok = pm.match_expr(parms[ch]["body"], "{ *__v_shift " + op + " 1; }") is not None
             res.check(ok, "CMD-TABLE", f"{IR}|parse|cmd|{ch}", where(IR, parms[ch], "parse"),
-                      f"parser: `{ch}` must add {const} to the pending value of cell `shift`; found `{txt}`")
-        txt = ast.src1(IR, parms["."]["body"], 400).replace(" ", "")
-        ok = txt.endswith("insts.push(Instr::Output{src:*shift});}") and "insts.push(Instr::add(*shift,*val));" in txt
+                      f"parser: `{ch}` must be `*shift {op} 1`; found `{ast.src1(IR, parms[ch]['body'])}`")
+        for ch, const in (("+", "C::ONE"), ("-", "C::NEG_ONE")):
+            ok = pm.match_expr(parms[ch]["body"], "{ let __v_val = __v_buff.entry(*__v_shift).or_insert(C::ZERO); *__v_val = __v_val.wrapping_add(" + const + "); }") is not None
+            res.check(ok, "CMD-TABLE", f"{IR}|parse|cmd|{ch}", where(IR, parms[ch], "parse"),
+                      f"parser: `{ch}` must add {const} to the pending value of cell `shift`; found `{ast.src1(IR, parms[ch]['body'], 200)}`")
+        ok = pm.match_expr(parms["."]["body"], "{ let __v_val = __v_buff.entry(*__v_shift).or_insert(C::ZERO); if *__v_val != C::ZERO { __v_insts.push(Instr::add(*__v_shift, *__v_val)); "
+                           "*__v_val = C::ZERO; } __v_insts.push(Instr::Output { src: *__v_shift }); }") is not None
         res.check(ok, "CMD-TABLE", f"{IR}|parse|cmd|.", where(IR, parms["."], "parse"),
                   "parser: `.` must flush the pending add of cell `shift` and then emit Output { src: shift }")
-        txt = ast.src1(IR, parms[","]["body"], 400).replace(" ", "")
-        ok = "insts.push(Instr::Input{dst:*shift});" in txt and "buff.insert(*shift,C::ZERO);" in txt
+        ok = pm.match_expr(parms[","]["body"], "{ __v_insts.push(Instr::Input { dst: *__v_shift }); __v_buff.insert(*__v_shift, C::ZERO); }") is not None
         res.check(ok, "CMD-TABLE", f"{IR}|parse|cmd|,", where(IR, parms[","], "parse"),
                   "parser: `,` must emit Input { dst: shift } and forget the pending add of that cell")
     except (Missing, KeyError, IndexError) as m:
@@ -506,22 +517,34 @@ def run_cell_rules(res, ast, rules=("CELL-CONSTS", "CELL-CASTS", "CELL-DELEGATE"
                           f"<{ty}>::{name} must be `self.{name}(..)` on its own parameters (the inherent primitive method); found `{ast.src1(LIB, e) if e else None}`")
             f = items.get("bitand")
             e = single_expr(f) if f else None
-            res.check(e is not None and e["t"] == "Binary" and e["op"] == "&" and path_name(e["left"]) == "self" and path_name(e["right"]) == "rhs",
+            bp_ = [p_["pat"]["name"] for p_ in f["sig"]["inputs"] if p_["t"] == "Arg"] if f else []
+            res.check(e is not None and e["t"] == "Binary" and e["op"] == "&" and path_name(e["left"]) == "self" and bp_ and path_name(e["right"]) == bp_[0],
                       "CELL-DELEGATE", f"{LIB}|impl CellType for {ty}|bitand", where(LIB, f or im, f"<{ty}>::bitand"), f"<{ty}>::bitand must be `self & rhs`")
             for name, prim in (("wrapping_shr", "checked_shr"), ("wrapping_shl", "checked_shl")):
                 f = items.get(name)
                 e = single_expr(f) if f else None
                 txt = ast.src1(LIB, e).replace(" ", "") if e else None
-                res.check(txt == f"self.{prim}(by).unwrap_or(0)", "CELL-DELEGATE", f"{LIB}|impl CellType for {ty}|{name}",
+                sp_ = [p_["pat"]["name"] for p_ in f["sig"]["inputs"] if p_["t"] == "Arg"] if f else ["by"]
+                res.check(txt == f"self.{prim}({sp_[0] if sp_ else 'by'}).unwrap_or(0)", "CELL-DELEGATE", f"{LIB}|impl CellType for {ty}|{name}",
                           where(LIB, f or im, f"<{ty}>::{name}"), f"<{ty}>::{name} must be `self.{prim}(by).unwrap_or(0)` (0 when the shift reaches the width); found `{txt}`")
     if "CELL-SIBLINGS" in rules:
         def norm(ty):
+            import re as _re
             s = ast.src(LIB, impls[ty])
+            # parameter names are irrelevant: rename them positionally inside each function
+            for fn_ in impls[ty]["items"]:
+                if fn_["t"] != "Fn":
+                    continue
+                txt = ast.src(LIB, fn_)
+                new_txt = txt
+                for i_, p_ in enumerate([q for q in fn_["sig"]["inputs"] if q["t"] == "Arg" and q["pat"]["t"] == "PIdent"]):
+                    new_txt = _re.sub(r"(?<![.\w])" + _re.escape(p_["pat"]["name"]) + r"(?!\w)", f"p{i_}", new_txt)
+                s = s.replace(txt, new_txt)
             w = WIDTH[ty]
             # `u32` also occurs width-independently (shift amounts, BITS, trailing_zeros): protect those first
-            for fixed in ("by: u32", "-> u32", "BITS: u32"):
+            for fixed in ("by: u32", "p0: u32", "-> u32", "BITS: u32"):
                 s = s.replace(fixed, fixed.replace("u32", "U32"))
-            for fixed in ("into_u64", "from_u64", "into_i64", "val: u64", "-> u64", "-> i64"):
+            for fixed in ("into_u64", "from_u64", "into_i64", "val: u64", "p0: u64", "-> u64", "-> i64"):
                 s = s.replace(fixed, fixed.replace("u64", "U64").replace("i64", "I64"))
             s = s.replace(f"i{w}", "iW").replace(ty, "uW").replace(f"= {w};", "= W;")
             return " ".join(s.split())
@@ -539,18 +562,21 @@ def run_cell_rules(res, ast, rules=("CELL-CONSTS", "CELL-CASTS", "CELL-DELEGATE"
     tr = ast.item(LIB, "Trait", "CellType")
     titems = {x["name"]: x for x in tr["items"]}
     if "CELL-CASTS" in rules:
+        import pm
         exp = {
-            "from_u8": "Self::from_u64(val as u64)",
+            "from_u8": "Self::from_u64(__v_x as u64)",
             "into_u8": "self.into_u64() as u8",
-            "from_i16": "Self::from_u64(val as i64 as u64)",
+            "from_i16": "Self::from_u64(__v_x as i64 as u64)",
             "try_into_i16": "self.into_i64().try_into().ok()",
         }
         for name, want in exp.items():
             f = titems.get(name)
             e = single_expr(f) if f and f.get("body") else None
             got = " ".join(ast.src(LIB, e).split()) if e else None
-            res.check(got == want, "CELL-CASTS", f"{LIB}|trait CellType|{name}", where(LIB, f or tr, f"CellType::{name}"),
-                      f"CellType::{name} is `{got}`, must be `{want}` (zero/sign extension and truncation as documented)")
+            pn_ = [p_["pat"]["name"] for p_ in f["sig"]["inputs"] if p_["t"] == "Arg"] if f else []
+            okx = e is not None and pm.match_expr(e, want, {"__v_x": pn_[0]} if pn_ else {}) is not None
+            res.check(okx, "CELL-CASTS", f"{LIB}|trait CellType|{name}", where(LIB, f or tr, f"CellType::{name}"),
+                      f"CellType::{name} is `{got}`, must be `{want.replace('__v_x', 'val')}` (zero/sign extension and truncation as documented)")
         for ty in WIDTH:
             for name in exp:
                 ov = [x for x in impls[ty]["items"] if x["name"] == name]
